@@ -24,33 +24,56 @@ def norm_opts(o):
     return d
 
 
-def cli_argv(o, inp, out, dump=None):
+_LONG = {"-i": "--input", "-o": "--output", "-a": "--anonymize-ips", "-p": "--anonymize-passwords", "-u": "--undo",
+         "-s": "--salt", "-w": "--sensitive-words", "-n": "--as-numbers", "-r": "--reserved-words", "-d": "--dump-ip-map"}
+
+
+def cli_argv(o, inp, out, dump=None, style=0):
+    """The command line for an option set.  `style` (from the plan's knobs) picks long or short option names, the
+    `--opt=value` spelling and the order of the groups; all spellings are equivalent for the documented CLI."""
+    argv = _cli_groups(o, inp, out, dump)
+    if style:
+        groups = []
+        for g in argv:
+            g = list(g)
+            if style & 1 and g[0] in _LONG:
+                g[0] = _LONG[g[0]]
+            if style & 2 and len(g) == 2 and g[0].startswith("--") and not g[1].startswith("-"):
+                g = [g[0] + "=" + g[1]]
+            groups.append(g)
+        if style & 4:
+            groups = groups[::-1]
+        argv = groups
+    return [x for g in argv for x in g]
+
+
+def _cli_groups(o, inp, out, dump=None):
     o = norm_opts(o)
-    argv = ["-i", inp, "-o", out]
+    argv = [["-i", inp], ["-o", out]]
     if o["ip"]:
-        argv.append("-a")
+        argv.append(["-a"])
     if o["pwd"]:
-        argv.append("-p")
+        argv.append(["-p"])
     if o["undo"]:
-        argv.append("-u")
+        argv.append(["-u"])
     if o["salt"] is not None:
-        argv += ["-s", o["salt"]]
+        argv.append(["-s", o["salt"]])
     if o["words"] is not None:
-        argv += ["-w", ",".join(o["words"])]
+        argv.append(["-w", ",".join(o["words"])])
     if o["as"] is not None:
-        argv += ["-n", ",".join(o["as"])]
+        argv.append(["-n", ",".join(o["as"])])
     if o["reserved"] is not None:
-        argv += ["-r", ",".join(o["reserved"])]
+        argv.append(["-r", ",".join(o["reserved"])])
     if o["pp"] is not None:
-        argv += ["--preserve-prefixes", ",".join(o["pp"])]
+        argv.append(["--preserve-prefixes", ",".join(o["pp"])])
     if o["pa"] is not None:
-        argv += ["--preserve-addresses", ",".join(o["pa"])]
+        argv.append(["--preserve-addresses", ",".join(o["pa"])])
     if o["private"]:
-        argv.append("--preserve-private-addresses")
+        argv.append(["--preserve-private-addresses"])
     if o["hb"] is not None:
-        argv += ["--preserve-host-bits", str(o["hb"])]
+        argv.append(["--preserve-host-bits", str(o["hb"])])
     if dump is not None:
-        argv += ["-d", dump]
+        argv.append(["-d", dump])
     return argv
 
 
@@ -154,7 +177,7 @@ def run_step(fs, proc, step, hist):
     hist["steps"].append(rec)
     try:
         if entry == "cli":
-            proc.nc.main(cli_argv(o, inp, out, dump))
+            proc.nc.main(cli_argv(o, inp, out, dump, style=(fs.knobs or {}).get("cli_style", 0)))
         elif entry == "files":
             proc.af.anonymize_files(inp, out, **api_kwargs(o, dump))
         elif entry in ("file", "io"):
